@@ -13,6 +13,7 @@ import (
 	"time"
 
 	"github.com/ipfs/go-cid"
+	"github.com/libp2p/go-libp2p/core/crypto"
 	"github.com/libp2p/go-libp2p/p2p/host/eventbus"
 
 	ipfslog "berty.tech/go-ipfs-log"
@@ -32,6 +33,7 @@ type c08Msg struct {
 
 type c08Sender struct {
 	device []byte
+	ann    []byte          // the chain-key announcement for the receiver's member, as bytes
 	meta   []ipfslog.Entry // device announcement + chain-key announcement, in log order
 	msgs   []c08Msg
 }
@@ -81,6 +83,10 @@ func c08Prepare(ctx context.Context, w *vWorld, recvAccount *vReplica, nsenders,
 		if err := write(before, false); err != nil {
 			return nil, err
 		}
+		// the same announcement as a value (for scenarios that register it with the secret store directly)
+		if snd.ann, err = sr.ss.GetShareableChainKey(ctx, g, md.Member()); err != nil {
+			return nil, err
+		}
 		op, err = gc.MetadataStore().SendSecret(ctx, md.Member())
 		if err != nil {
 			return nil, err
@@ -107,6 +113,9 @@ type c08Step struct {
 func (s c08Step) String() string {
 	if s.kind == "settle" {
 		return "settle"
+	}
+	if s.kind == "register" || s.kind == "flush-cancelled" || s.kind == "flush" {
+		return fmt.Sprintf("%s(s%d)", s.kind, s.sender)
 	}
 	if s.kind == "meta" {
 		return fmt.Sprintf("announce(s%d)", s.sender)
@@ -186,7 +195,27 @@ func c08Run(ctx context.Context, w *vWorld, account *vReplica, mat *c08Material,
 	}()
 	for _, st := range steps {
 		snd := mat.senders[st.sender]
-		if st.kind == "settle" {
+		if st.kind == "register" || st.kind == "flush-cancelled" || st.kind == "flush" {
+			// the application-level way: the chain key is registered with the secret store directly, and the message store
+			// is then asked to release what it parked for that device - once with a context that is already cancelled
+			// (the caller went away), once with a live one
+			pk, err := crypto.UnmarshalEd25519PublicKey(snd.device)
+			if err != nil {
+				return nil, err
+			}
+			switch st.kind {
+			case "register":
+				if err := r.ss.RegisterChainKey(ctx, mat.g, pk, snd.ann); err != nil {
+					return nil, fmt.Errorf("register: %w", err)
+				}
+			case "flush-cancelled":
+				cctx, cancel := context.WithCancel(ctx)
+				cancel()
+				gc.MessageStore().ProcessMessageQueueForDevicePK(cctx, snd.device)
+			default:
+				gc.MessageStore().ProcessMessageQueueForDevicePK(ctx, snd.device)
+			}
+		} else if st.kind == "settle" {
 			// let the pipeline take up everything that has arrived before the next delivery is made
 			if _, wd := c08Quiesce(gc, gc.MessageStore().OpLog().Len()); wd != "" {
 				out.watchdog = "settle: " + wd
@@ -318,7 +347,7 @@ func c08Judge(rep *verifkit.Report, mat *c08Material, steps []c08Step, plan stri
 	announced := map[int]bool{}
 	arrivedUpto := map[int]int{}
 	for _, s := range steps {
-		if s.kind == "meta" {
+		if s.kind == "meta" || s.kind == "register" {
 			announced[s.sender] = true
 		} else if s.upto > arrivedUpto[s.sender] {
 			arrivedUpto[s.sender] = s.upto
@@ -440,6 +469,11 @@ func TestVerifC08(t *testing.T) {
 		// runs only: each run processes 130 messages)
 		{"burst-130-before-announce", 1, 0, 130, func(m *c08Material) []c08Step {
 			return []c08Step{{"msgs", 0, all(0, m)}, {"settle", 0, 0}, {"meta", 0, 0}}
+		}, false, 0, false},
+		// the chain key reaches the secret store directly; the release of the parked messages is first asked for by a caller
+		// whose context is already cancelled, then by a live one: nothing may be lost in between
+		{"register-then-cancelled-flush", 1, 0, 3, func(m *c08Material) []c08Step {
+			return []c08Step{{"msgs", 0, all(0, m)}, {"settle", 0, 0}, {"register", 0, 0}, {"flush-cancelled", 0, 0}, {"flush", 0, 0}}
 		}, false, 0, false},
 		// a late joiner: 130 messages sealed before the announcement (never openable here) and 3 after it, all parked
 		// before the key arrives; the 3 must come out although a large unopenable backlog sits in front of them
